@@ -214,6 +214,23 @@ def run_case(case):
             if np.any(dev > vt):
                 i0 = int(np.argmax(dev))
                 res["violations"].append({"key": "roundtrip", "what": f"{'log' if log else 'lin'} grid start={start} stop={stop} n={n}: interpolating the grid at coordinate({v[i0]!r}) gives {back[i0]!r}"})
+            # exact oracle for linear grids in double precision: with start, stop and the value
+            # taken as the exact rationals they are, the coordinate is (v - start) * (n - 1) / (stop - start);
+            # the subtraction of nearby numbers is exact in floating point, so a faithful
+            # implementation is accurate to a few ulps of the coordinate even on grids that lie far
+            # from zero relative to their step (where the conditioning bound above is very loose)
+            if x64 and not log:
+                from fractions import Fraction
+
+                pick = np.unique(np.concatenate([arr[rng.integers(0, n, 4)], v[rng.integers(0, nv, 8)]]))
+                cg = np.asarray(g.get_coordinate(jnp.asarray(pick)), dtype=float)
+                fs, fe = Fraction(start), Fraction(stop)
+                for vv, cc in zip(pick, cg):
+                    cex = float((Fraction(float(vv)) - fs) * (n - 1) / (fe - fs))
+                    cnt["exact_coordinates_compared"] = cnt.get("exact_coordinates_compared", 0) + 1
+                    if not abs(cc - cex) <= 1e-11 * (1 + abs(cex)):
+                        res["violations"].append({"key": "coordinate_inexact", "what": f"lin grid start={start!r} stop={stop!r} n={n}: coordinate({float(vv)!r}) = {cc!r}, exact rational arithmetic gives {cex!r} (|start|/step = {abs(start) / ((stop - start) / (n - 1)):.3g})"})
+                        break
             # "for every value": integer-TYPED values (python int, numpy / jax integer scalars and
             # arrays) are values like any other - their coordinate is that of the same number as float
             lo_i, hi_i = int(np.ceil(start if log else start - (stop - start))), int(np.floor(stop if log else stop + (stop - start)))
